@@ -15,7 +15,7 @@ pub const DEF: PropDef = PropDef {
     run,
     replay,
     level: "exploration",
-    rule: "bounded-exhaustive (suite - all three ciphers, four hashes, 25519 and P-256 - and key material rotate with the case): for every pattern (38 base; thorough: plus a psk variant each; plus, one level less deep and with a short continuation, every pattern with a psk modifier at EVERY valid position) and both roles, ALL sequences of handshake-phase calls over {write with ample buffer, write with empty buffer, read genuine next message (from a shadow peer), read stale (previous) message, read 10 bytes of garbage} up to depth #messages+1 (thorough: +2); at EVERY node of that tree both conversions (stateful, stateless) and, when they succeed, all length-2 sequences over {transport write, transport read genuine, transport read garbage, manual rekey, automatic rekey} plus transport writes that cannot fit (empty buffer, payload too long: Input in the permitted direction, the state error in the forbidden one); plus random longer sequences. Ephemerals come from the resolver's random source, which yields OTHER bytes while a call the model expects to fail is running than during valid calls (an out-of-phase call that re-draws the live ephemeral then breaks the next genuine message). Model: (position, role). Expected per call: success exactly when the model allows; otherwise State(NotTurnToWrite|NotTurnToRead) before completion, State(HandshakeAlreadyFinished|NotTurnTo..) after it, State(HandshakeNotFinished) for early conversion, State(OneWay) for the forbidden transport direction; after every call is_handshake_finished()==(position==#messages), is_initiator() constant, and while unfinished is_my_turn()==(initiator XOR position odd); a failed call leaves the indicators unchanged. Non-trivial = the sequence contains at least one out-of-phase call; distinct by (pattern, role, sequence)",
+    rule: "bounded-exhaustive (suite - all three ciphers, four hashes, 25519 and P-256 - and key material rotate with the case): for every pattern (38 base; thorough: plus a psk variant each; plus, one level less deep and with a short continuation, every pattern with a psk modifier at EVERY valid position) and both roles, ALL sequences of handshake-phase calls over {write with ample buffer, write with empty buffer, read genuine next message (from a shadow peer), read stale (previous) message, read 10 bytes of garbage} up to depth #messages+1 (thorough: +2); at EVERY node of that tree both conversions (stateful, stateless) and, when they succeed, all length-2 sequences over {transport write, transport read genuine, transport read garbage, manual rekey, automatic rekey} plus transport writes that cannot fit (empty buffer, payload too long: Input in the permitted direction, the state error in the forbidden one); plus random longer sequences. Ephemerals come from the resolver's random source, which yields OTHER bytes while a call the model expects to fail is running than during valid calls (an out-of-phase call that re-draws the live ephemeral then breaks the next genuine message). Every other psk case runs the deferred-PSK workflow: the tested endpoint is built without its PSKs and set_psk() supplies each one only just before the in-phase call of the message that mixes it, so earlier out-of-phase calls meet a session whose upcoming message lacks its PSK and must still get the turn / phase error. Model: (position, role). Expected per call: success exactly when the model allows; otherwise State(NotTurnToWrite|NotTurnToRead) before completion, State(HandshakeAlreadyFinished|NotTurnTo..) after it, State(HandshakeNotFinished) for early conversion, State(OneWay) for the forbidden transport direction; after every call is_handshake_finished()==(position==#messages), is_initiator() constant, and while unfinished is_my_turn()==(initiator XOR position odd); a failed call leaves the indicators unchanged. Non-trivial = the sequence contains at least one out-of-phase call; distinct by (pattern, role, sequence)",
     technique: "bounded-exhaustive model-based testing of call sequences (every node of the call tree to the depth bound) + proptest random sequences",
     assumptions: &["where an out-of-phase call also has a malformed argument (empty buffer), either the state error or the input error is accepted: the statement fixes no precedence"],
     panic_is_violation: false,
@@ -89,7 +89,22 @@ fn oracle(c: &Case, acc: &mut Acc) -> CaseResult {
     let pat = spec.pattern();
     let nm = pat.msgs.len();
     let oneway = pat.is_oneway();
-    let pair = build_pair(&spec, None)?;
+    let mut pair = build_pair(&spec, None)?;
+    // deferred-PSK workflow (every other psk case): the tested endpoint is built WITHOUT its
+    // PSKs and each one is supplied with set_psk() only just before the in-phase call of the
+    // message that mixes it - so the out-of-phase calls made earlier meet a session whose
+    // upcoming message needs a PSK it does not have yet, and must still report the turn / phase error
+    let late_psk = !c.psks.is_empty() && (hcase / 3) % 2 == 1;
+    if late_psk {
+        let ov = EpOverrides { omit_psks: c.psks.clone(), ..EpOverrides::default() };
+        let rng = if c.initiator { pair.rng_i.clone() } else { pair.rng_r.clone() };
+        let built = build_snow(&spec, c.initiator, &ov, &Instr { rng: Some(rng), log: None }).map_err(|x| Fail::setup(format!("build without PSKs {}: {x:?}", spec.name_string())))?;
+        if c.initiator {
+            pair.i = built;
+        } else {
+            pair.r = built;
+        }
+    }
     let e_rng = if c.initiator { pair.rng_i.clone() } else { pair.rng_r.clone() };
     let e_script = spec.e_priv(c.initiator);
     let poison = priv_from_seed(spec.suite.dh, spec.key_seed, 7777);
@@ -136,6 +151,17 @@ fn oracle(c: &Case, acc: &mut Acc) -> CaseResult {
         let mut failed = true;
         let expected_ok = (*op == W_OK && mine) || (*op == R_GENUINE && !finished && !mine);
         e_rng.script(if expected_ok { &e_script } else { &poison });
+        let in_phase = match *op {
+            W_OK | W_SMALL => mine,
+            _ => !finished && !mine,
+        };
+        if late_psk && in_phase {
+            for &k in &c.psks {
+                if (k as usize).saturating_sub(1) == pos {
+                    e.set_psk(k as usize, &spec.psk(k)).map_err(|x| Fail::setup(format!("{who}: set_psk({k}): {x:?}")))?;
+                }
+            }
+        }
         match *op {
             W_OK | W_SMALL => {
                 let payload = spec.payload(pos, 4);
@@ -330,6 +356,11 @@ fn oracle(c: &Case, acc: &mut Acc) -> CaseResult {
     });
     if oneway {
         acc.label("class:one-way");
+    }
+    if late_psk {
+        acc.label("psk:supplied late (set_psk just before the message that needs it)");
+    } else if !c.psks.is_empty() {
+        acc.label("psk:supplied at build time");
     }
     if out_of_phase > 0 {
         acc.nontrivial(&(c.pattern.clone(), c.psks.clone(), c.initiator, c.hs_ops.clone(), c.conv, c.t_ops.clone()));
